@@ -333,6 +333,13 @@ ReusableAfterRelease ==
 ContainsLive ==
   \A x \in blocks : x.n > 0 => ContainsRes(x.a) /\ ContainsRes(x.a + x.n - 1)
 
+(* ENVIRONMENT ASSUMPTION on the PageAllocator the resource is given: every page is aligned to the page size.
+   do_allocate_in_new_page returns the start of a fresh page for every request with alignment <= page_size
+   without aligning it, so `Aligned` holds only on top of this.  In this model pages are k * P by construction;
+   on the real allocator stack (NewDeletePageAllocator, CachedPageAllocator, PageHeap; driver scenario "real")
+   the monitor checks it on the logged pointer values (Mono_Mon: EnvPageAligned). *)
+EnvPagesAligned == \A pg \in pages : pg % P = 0
+
 (* L2 sanity (not part of the property statement; they keep the specification honest) *)
 PagesConsistent == pages = Range(PageEntsNewestFirst) /\ Len(PageEntsNewestFirst) = Cardinality(pages)
 UpstreamConsistent == ulive = Range(OverEntsNewestFirst)
